@@ -54,7 +54,8 @@ def scenario(name):
     def fresh():
         X = type('X', (), {'__module__': 'mc_c20_dyn'})
         Y = type('Y', (X,), {'__module__': 'mc_c20_dyn'})
-        R.pp._DEFERRED_DISPATCH_BY_NAME['mc_c20_dyn.X'] = lambda v, ctx: 'X!'
+        from prettyprinter import register_pretty
+        register_pretty('mc_c20_dyn.X')(lambda v, ctx: 'X!')      # public API: a printer registered by name, still pending
         return X, Y
 
     def norm(s):
@@ -99,13 +100,10 @@ SCENARIOS_3 = ['three-threads', 'three-threads-mixed']
 
 def end_state():
     R = registry.get()
-    keys = sorted(k.__module__ + '.' + k.__qualname__ for k in R.registry if k not in R.base_registry)
-    deferred = sorted(k for k in R.pp._DEFERRED_DISPATCH_BY_NAME if k not in R.base_deferred or k == 'mc_c20_dyn.X')
-    try:
-        cnt = sorted(k.__name__ for k in R.pp._cnamedtuple_fieldnames_by_class.keys())
-    except Exception:     # noqa
-        cnt = None
-    return (tuple(keys), tuple(deferred), tuple(cnt) if cnt is not None else None)
+    keys = sorted(getattr(k, '__module__', '?') + '.' + getattr(k, '__qualname__', repr(k)) for k in R.registry if k not in R.base_registry)
+    deferred = sorted(k for k in R.deferred() if k not in R.base_deferred or k == 'mc_c20_dyn.X')
+    cnt = R.structseq_cache_names()
+    return (tuple(keys), tuple(deferred), tuple(x.rsplit('.', 1)[-1] for x in cnt) if cnt is not None else None)
 
 
 def sequential(name):
